@@ -2,9 +2,9 @@ package main
 
 import (
 	"fmt"
-	"os"
 	"go/token"
 	"go/types"
+	"os"
 	"sort"
 	"strings"
 
@@ -22,9 +22,9 @@ import (
 type okind int
 
 const (
-	oFresh  okind = iota // allocated by this function (or by a callee, per call site)
-	oParam               // what parameter i (receivers and free variables included) points to at entry
-	oChild               // what was stored at entry under (parent, key)
+	oFresh okind = iota // allocated by this function (or by a callee, per call site)
+	oParam              // what parameter i (receivers and free variables included) points to at entry
+	oChild              // what was stored at entry under (parent, key)
 	oGlobal
 	oHeap
 )
@@ -125,12 +125,12 @@ type witness struct {
 }
 
 type summary struct {
-	writes      map[ppath]*witness // writes to parameter-rooted objects
-	flags       map[string]*witness // writes-global, writes-heap, spawns, nondet:*, chan, sync, unknown-call:*
-	ret         map[rsrc]struct{}
-	contentAdd  map[ppath]map[string]map[src]struct{} // path -> key -> sources stored there
-	freshHolds  map[fkey2]map[src]struct{}            // what callee-fresh objects (by class, key) may contain
-	reads       map[string]bool
+	writes     map[ppath]*witness  // writes to parameter-rooted objects
+	flags      map[string]*witness // writes-global, writes-heap, spawns, nondet:*, chan, sync, unknown-call:*
+	ret        map[rsrc]struct{}
+	contentAdd map[ppath]map[string]map[src]struct{} // path -> key -> sources stored there
+	freshHolds map[fkey2]map[src]struct{}            // what callee-fresh objects (by class, key) may contain
+	reads      map[string]bool
 }
 
 func newSummary() *summary {
@@ -152,36 +152,36 @@ func (s *summary) size() int {
 }
 
 type effAnalysis struct {
-	p        *Program
-	cg       *callgraph.Graph
-	sums     map[*ssa.Function]*summary
-	external func(fn *ssa.Function) *extSpec
-	deep     bool // analyse dependency bodies instead of trusting the table
-	unknown  map[string]token.Pos
-	funcs    []*ssa.Function
+	p             *Program
+	cg            *callgraph.Graph
+	sums          map[*ssa.Function]*summary
+	external      func(fn *ssa.Function) *extSpec
+	deep          bool // analyse dependency bodies instead of trusting the table
+	unknown       map[string]token.Pos
+	funcs         []*ssa.Function
 	trustedUnsafe map[string]bool
-	keep  *ssa.Function
-	kept  *fstate
+	keep          *ssa.Function
+	kept          *fstate
 }
 
 const maxDepth = 3
 
 // per-function state
 type fstate struct {
-	ea      *effAnalysis
-	fn      *ssa.Function
-	params  []*aobj
-	pts     map[ssa.Value]locset
-	tup     map[ssa.Value]map[int]locset
-	content map[loc]locset
+	ea       *effAnalysis
+	fn       *ssa.Function
+	params   []*aobj
+	pts      map[ssa.Value]locset
+	tup      map[ssa.Value]map[int]locset
+	content  map[loc]locset
 	children map[loc]*aobj
-	fresh   map[ssa.Instruction]*aobj
-	named   map[string]*aobj
-	global  *aobj
-	heap    *aobj
-	nobj    int
-	sum     *summary
-	changed bool
+	fresh    map[ssa.Instruction]*aobj
+	named    map[string]*aobj
+	global   *aobj
+	heap     *aobj
+	nobj     int
+	sum      *summary
+	changed  bool
 }
 
 func (st *fstate) newObj(k okind) *aobj {
@@ -875,10 +875,10 @@ func (ea *effAnalysis) edgeTargets(caller *ssa.Function, cc *ssa.CallCommon) []*
 // ---- external functions ----
 
 type extSpec struct {
-	writes  []int // argument indices (receiver first) whose pointee is written
-	ret     string // "fresh" | "arg:N" | "none" | "heap"
+	writes  []int    // argument indices (receiver first) whose pointee is written
+	ret     string   // "fresh" | "arg:N" | "none" | "heap"
 	stores  [][2]int // [dst arg, src arg]: src is stored into dst's memory
-	callsFn []int // function-typed arguments that are invoked (already charged at creation)
+	callsFn []int    // function-typed arguments that are invoked (already charged at creation)
 	flag    string
 	pure    bool
 }
